@@ -45,6 +45,7 @@ def families(dialect):
         ("joined", lambda p, T: p.call(p.call(p.call(p.call(Q, "from_", T["t1"]), "select", _f(p, T["t1"], "a")), "join", T["t2"]), "on",
                                        _eq(p, _f(p, T["t1"], "id"), _f(p, T["t2"], "id")))),
     ]
+    sel_primes.append(("with-cte", lambda p, T: p.call(p.call(p.call(Q, "with_", sub(p, T, "t3", "a"), "c1"), "from_", T["t1"]), "select", _f(p, T["t1"], "a"))))
     sel_actions = [
         ("select-b", lambda p, r, T: p.call(r, "select", _f(p, T["t1"], "b"))),
         ("select-sum-as-x", lambda p, r, T: p.call(r, "select", p.call(p.new("fn.Sum", _f(p, T["t1"], "b")), "as_", "x"))),
@@ -97,6 +98,7 @@ def families(dialect):
         ("force-index-i1", lambda p, r, T: p.call(r, "force_index", "i1")),
         ("with-c1", lambda p, r, T: p.call(r, "with_", sub(p, T, "t2", "a"), "c1")),
         ("with-c2", lambda p, r, T: p.call(r, "with_", sub(p, T, "t3", "a"), "c2")),
+        ("with-c1-other-body", lambda p, r, T: p.call(r, "with_", sub(p, T, "t2", "b"), "c1")),
         ("union", lambda p, r, T: p.call(r, "union", sub(p, T, "t2", "a"))),
         ("replace-t1-t2", lambda p, r, T: p.call(r, "replace_table", T["t1"], T["t2"])),
         ("replace-t2-t3", lambda p, r, T: p.call(r, "replace_table", T["t2"], T["t3"])),
@@ -237,3 +239,18 @@ def pair_program(dialect, fam, pn, an, bn, chain=False):
         z = B(p, r, T)
         want.append(z.i)
     return p.prog(dialect=dialect, pair="%s/%s/%s/%s" % (fam, pn, an, bn)), want
+
+
+def dup_program(dialect, fam, pn, an, bn, how):
+    """r = prime; d = duplicate(r); x = A(d); y = B(r); z = A(r): a continuation on the duplicate, then two on the original."""
+    primes, actions = families(dialect)[fam]
+    prime = dict(primes)[pn]
+    A, B = dict(actions)[an], dict(actions)[bn]
+    p = P()
+    T = tables(p)
+    r = prime(p, T)
+    d = p.dup(how, r)
+    x = A(p, d, T)
+    y = B(p, r, T)
+    z = A(p, r, T)
+    return p.prog(dialect=dialect, pair="%s/%s/%s/%s/%s" % (fam, pn, an, bn, how)), [[r.i, d.i, how]], [r.i, d.i, x.i, y.i, z.i]
